@@ -190,9 +190,12 @@ def split_at_loop(fi: FuncInfo, which: int = 0, kind=(ast.For, ast.While)):
     if STRICT_LOOPS and len(idxs) > 1 and fi.qualname in FLATTENED:
         raise AnalysisError(f"{fi.qualname}: {len(idxs)} top-level loops in the helper-flattened form; which one is the function's own is not decided")
     k = idxs[which]
+    READ_LOOPS[fi.qualname] = (fi, body[k])
     return body[:k], normalise_while(fi, body[k]), body[k + 1:]
 
 
+READ_LOOPS: Dict[str, Any] = {}          # qualname -> FuncInfo of every function whose main loop a rule took apart in this run
+ACCOUNTED: Dict[str, list] = {}          # qualname -> predicates over ast.Return nodes: early exits a rule has judged
 STRICT_LOOPS = False          # second reading (helper-flattened program): "the loop" of a function must be the only candidate
 FLATTENED: set = set()        # qualnames read in flattened form
 _DESUGARED: Dict[int, list] = {}
@@ -375,6 +378,7 @@ def locate_loop(fi: FuncInfo, which: int = 0, kind=(ast.For, ast.While)):
     if STRICT_LOOPS and len({id(f_[1]) for f_ in found}) > 1 and fi.qualname in FLATTENED:
         raise AnalysisError(f"{fi.qualname}: {len(found)} loops outside other loops in the helper-flattened form; which one is the function's own is not decided")
     pre_, loop_, post_, conds_ = found[which]
+    READ_LOOPS[fi.qualname] = (fi, loop_)
     return pre_, normalise_while(fi, loop_), post_, conds_
 
 
@@ -702,3 +706,98 @@ def log_only_local(fi, name: str) -> bool:
         elif isinstance(n, (ast.Global, ast.Nonlocal)) and name in n.names:
             return False
     return seen
+
+
+def early_exits_bounded(rc, rule: str, fi, returns, size: Rat, limit: int, what: str) -> bool:
+    """Returns taken before the main loop of a pass skip that pass.  That is only the same function when nothing is left
+    for the pass to decide: every such exit must be confined to inputs of at most `limit` elements (`size` is the
+    input's length).  An exit that also takes larger inputs is reported: for them the rule of the pass is skipped."""
+    from ..intervals import int_bounds
+    res = rc.res
+    ok = True
+    for g, _v in returns:
+        if not g_sat(g):
+            continue
+        parts = g.a if g.kind == "or" else (g,)
+        for part in parts:
+            if not g_sat(part):
+                continue
+            _lo, hi = int_bounds(part, size)
+            if hi is None or hi > limit:
+                ok = False
+                res.violation(rule, fi.module, fi.name, fi.node,
+                              f"{what}: a result is returned before the pass under {_short(part, 100)}, which admits inputs of more than {limit} element(s): "
+                              "for them the rule of the pass is skipped", _short(part, 160), f"an early exit only for at most {limit} element(s)", construct=f"early exit {fi.name}")
+    return ok
+
+
+def account_exits(fi, predicate=None):
+    """A rule declares that it has judged the early exits of fi that satisfy `predicate` (all of them when None)."""
+    ACCOUNTED.setdefault(fi.qualname, []).append(predicate or (lambda r: True))
+
+
+def early_returns(fi, loop) -> list:
+    """Return statements that can be taken before the main loop starts (textually in front of it, outside any loop)."""
+    out = []
+    line = getattr(loop, "lineno", None)
+    if line is None:
+        return out
+
+    def walk(stmts):
+        for st in stmts:
+            if st is loop or getattr(st, "lineno", 0) >= line:
+                return True
+            if isinstance(st, ast.Return):
+                out.append(st)
+            elif isinstance(st, ast.If):
+                if walk(st.body) or walk(st.orelse):
+                    return True
+            elif isinstance(st, (ast.With, ast.Try)):
+                for blk in [getattr(st, "body", []), getattr(st, "orelse", []), getattr(st, "finalbody", [])] + [h.body for h in getattr(st, "handlers", [])]:
+                    if walk(blk):
+                        return True
+        return False
+    walk(fi.node.body)
+    return out
+
+
+def audit_early_exits(res):
+    """A pass that is taken apart loop first says nothing about a `return` in front of the loop: every such exit must have
+    been judged by a rule (short-input clauses, zero-iteration exits, size bounds).  One that no rule has judged is a shape
+    that was not read - exit 2, never a silent pass."""
+    for q, (fi, loop) in sorted(READ_LOOPS.items()):
+        preds = ACCOUNTED.get(q, [])
+        for r in early_returns(fi, loop):
+            if any(p(r) for p in preds):
+                continue
+            res.error(f"{q}: the exit `{ast.unparse(r)[:60]}` (line {r.lineno}) in front of the main loop is not judged by any rule of this property - shape not recognised")
+
+
+def justify_prefix_returns(rc, fi, ev, returns, env, loop, post) -> list:
+    """Of the (guard, value) returns taken in front of `loop`, those that are NOT zero-iteration exits.  A zero-iteration exit
+    is taken only when the loop would not run at all and returns exactly what the statements after the loop return on the
+    state the loop starts from - the same function, written with a shortcut."""
+    from ..gvn import Frame, vkey, Unsupported
+    out = []
+    b = None
+    if isinstance(loop, ast.For):
+        try:
+            b = bind_loop(ev, Frame(ev, fi, 0), loop, dict(env))
+        except Exception:
+            b = None
+    v0 = None
+    if b is not None:
+        try:
+            fr2 = Frame(ev, fi, 0)
+            fr2.block(list(post), dict(env), TRUE)
+            if len(fr2.returns) == 1 and fr2.returns[0][0].kind == "true":
+                v0 = fr2.returns[0][1]
+        except Unsupported:
+            v0 = None
+    for g, v in returns:
+        if not g_sat(g):
+            continue
+        if b is not None and v0 is not None and g_implies(g, canon_sign(b.hi.sub(b.lo), OPS["<="])) and vkey(v) == vkey(v0):
+            continue
+        out.append((g, v))
+    return out
